@@ -23,6 +23,7 @@ BOUNDARY_L2 = ('clusters', 'seam', 'allsky', 'wide2', 'shells', 'dups', 'polar',
                'guided_wrap', 'degenerate')           # list 2 never influences the chunk grid
 BOUNDARY_L1 = ('allsky', 'polar', 'guided_wrap')      # list 1 already all around the sky
 # dense class: list-2 sizes around implementation-typical block sizes, all of them in ONE chunk
+WIDE_LENGTHS = [90.0, 120.0, 170.0, 179.9, 180.0, 180.1, 200.0, 270.0, 359.0, 360.0]
 DENSE_SIZES = [2 ** k + d for k in range(8, 18) for d in (-1, 0, 1)]
 DENSE_QUICK = [65537, 131073, 257, 511, 1025, 4097, 16385, 32769, 256, 8191]
 CS_FACT = [1.01, 1.05, 1.2, 1.5, 2.0, 4.0, 4.0, 8.0, 16.0, 64.0]
@@ -119,6 +120,8 @@ class C04(Check):
                          'maxmatch_blocked_pairs', 'edge_close_points', 'perm_variants', 'chunksize_variants',
                          'canary_sequences', 'canary_inputs_judged', 'flavour_calls', 'flavour_int_calls', 'flavour_single_precision_calls',
                          'flavour_layout_calls', 'flavour_args_unchanged_checks', 'flavour_true_pairs',
+                         'gridline_points_exactly_on_dec_bounds', 'gridline_points_on_outer_dec_bounds', 'gridline_points_on_ra_bounds',
+                         'lattice_beyond_cases', 'wide_length_cases', 'wide_length_ge_180_cases', 'near_antipodal_pairs',
                          'boundary_ra_points', 'dense_cases', 'dense_cases_above_65536_in_one_chunk', 'dense_true_pairs', 'equal_ra_list1_cases', 'equal_dec_list1_cases')
 
     # ------------------------------------------------------------------ wiring
@@ -168,6 +171,8 @@ class C04(Check):
             'polar': 240 if q else 5000,
             'canary_inputs': len(CANARIES),
             'flavours': 400 if q else 8000,
+            'gridlines': 240 if q else 5000,
+            'wide_lengths': 120 if q else 2500,
             'dense': len(DENSE_QUICK) if q else 4 * len(DENSE_SIZES),
             'degenerate': 300 if q else 6000,
         }
@@ -227,6 +232,115 @@ class C04(Check):
         if cls in BOUNDARY_L1 and rng.random() < 0.3:
             case['ra1'][rng.randrange(len(case['ra1']))] = rng.choice(BOUNDARY_RA)
         return case
+
+    def gen_gridlines(self, rng, nr, i):
+        """list-2 points exactly ON the lines of the chunk grid that list 1 produces.  'guided': the grid of a preliminary
+        chunks(list 1) is read back and list-2 points get Dec = decBounds[k] for every k (first and last included, i.e. 1-1.5
+        chunk sizes outside list 1) and rotated RA = raBounds[slice][k] for every k, also both at once (grid nodes).
+        'lattice': list 1 on round coordinates, list 2 a regular lattice of step m x {0.5, 1, 1.5, 2, 4} through the same
+        origin that extends one to two chunk sizes beyond list 1 on every side (catalogue of field centres)."""
+        if rng.random() < 0.5:
+            return self._gen_lattice_beyond(rng)
+        m = log_uniform(rng, 0.02, 3.0)
+        cs = rng.choice([None, None, m * rng.choice([1.3, 2.0, 4.0, 8.0])])
+        dec0 = clipdec(rng.choice([0.0, 15.0, -30.0, 45.0, 60.0, -70.0, 80.0]) + rng.uniform(-1, 1))
+        ra1, dec1 = self._base(rng, nr, m, dec0, 3.0, 12.0, 5, 20)
+        g = self._learn(ra1, dec1, eff_cs(m, cs))
+        ra2, dec2 = [], []
+        if g is not None:
+            pad = eff_cs(m, cs) * 1.6 / max(math.cos(math.radians(dec0)), 0.05)
+            xs = lambda: rng.uniform(g.xMin - pad, g.xMax + pad)
+            for kk in range(g.nDec + 1):
+                d = g.decBounds[kk]
+                if abs(d) >= 90.0:
+                    continue
+                for _ in range(2):
+                    ra2.append(g.unrot(xs() % 360.0))
+                    dec2.append(d)
+                j = rng.randrange(len(ra1))
+                ra2.append(ra1[j])
+                dec2.append(d)
+            for sl in range(g.nDec):
+                lo, hi = g.decBounds[sl], g.decBounds[sl + 1]
+                for kk in range(g.nRa[sl] + 1):
+                    if len(ra2) > 90:
+                        break
+                    x = g.raBounds[sl][kk]
+                    if x >= 360.0:
+                        continue
+                    d = rng.choice([lo, hi, rng.uniform(lo, hi), rng.uniform(lo, hi)])
+                    if abs(d) >= 90.0:
+                        d = rng.uniform(lo, hi)
+                    ra2.append(g.unrot(x))
+                    dec2.append(clipdec(d))
+        fa, fd = self._partners(rng, ra1, dec1, m, 6, 0.3, 2.0)
+        ra2 += fa
+        dec2 += fd
+        return {'m': m, 'cs': cs, 'k': rng.choice([0, 0, 0, 1, 2]), 'ra1': ra1, 'dec1': dec1, 'ra2': ra2, 'dec2': dec2,
+                'kind': 'guided'}
+
+    def _gen_lattice_beyond(self, rng):
+        m = rng.choice([0.1, 0.2, 0.25, 0.5, 1.0, 2.0])
+        cs = rng.choice([None, None, 2.0 * m, 4.0 * m, 8.0 * m])
+        c = eff_cs(m, cs)
+        dec0 = rng.choice([-40.0, -10.0, 0.0, 10.0, 30.0, 50.0])
+        ra0 = rng.choice([20.0, 100.0, 200.0, 300.0])
+        half = 0.5 * m
+        H = half * rng.randint(2, 44)                       # extent of list 1 in Dec and RA: multiples of m/2
+        W = half * rng.randint(2, 44)
+        while dec0 + H > 80.0:                              # stay inside the domain |Dec| < 90 with room for list 2
+            H -= half
+        s1 = m * rng.choice([0.5, 1.0, 2.0])
+        n1 = rng.randint(2, 30)
+        pts = {(ra0, dec0), (ra0 + W, dec0 + H)}            # the box corners are members, so the extremes are round numbers
+        for _ in range(20 * n1):                            # bounded: the lattice may have fewer than n1 sites
+            if len(pts) >= n1:
+                break
+            pts.add((ra0 + min(W, s1 * rng.randint(0, int(W / s1))), dec0 + min(H, s1 * rng.randint(0, int(H / s1)))))
+        pts = sorted(pts)
+        rng.shuffle(pts)
+        s2 = m * rng.choice([0.5, 0.5, 1.0, 1.5, 2.0, 4.0])
+        ext = c * rng.uniform(1.0, 2.0)
+        cosd = max(math.cos(math.radians(dec0 + H)), 0.2)
+        na, nb = int((W + 2 * ext / cosd) / s2) + 1, int((H + 2 * ext) / s2) + 1
+        a0, b0 = -int(ext / cosd / s2) - 1, -int(ext / s2) - 1
+        allp = [(ra0 + (a0 + a) * s2, dec0 + (b0 + b) * s2) for a in range(na + 1) for b in range(nb + 1)]
+        allp = [q for q in allp if abs(q[1]) < 89.0]
+        if len(allp) > 90:
+            # keep the frame (outermost rows/columns carry the grid edges) and a sample of the interior
+            dmin, dmax = min(q[1] for q in allp), max(q[1] for q in allp)
+            edge = [q for q in allp if q[1] > dec0 + H + 0.5 * c or q[1] < dec0 - 0.5 * c]
+            rest = [q for q in allp if q not in set(edge)]
+            rng.shuffle(edge)
+            rng.shuffle(rest)
+            allp = edge[:60] + rest[:30]
+        rng.shuffle(allp)
+        return {'m': m, 'cs': cs, 'k': rng.choice([0, 0, 0, 1, 2]), 'ra1': [R.wrap360(q[0]) for q in pts], 'dec1': [q[1] for q in pts],
+                'ra2': [R.wrap360(q[0]) for q in allp], 'dec2': [q[1] for q in allp], 'kind': 'lattice'}
+
+    def gen_wide_lengths(self, rng, nr, i):
+        """the large end of the match length: 30-360 deg (90, 120, 170, 179.9, 180, 180.1, 200, 270, 359, 360 and random), all-sky
+        lists, opposite clumps, exactly and nearly antipodal partners; separations never exceed 180, so from 180.1 on
+        every pair is a true pair"""
+        m = rng.choice(WIDE_LENGTHS) if rng.random() < 0.7 else rng.uniform(30.0, 200.0)
+        n1, n2 = rng.randint(2, 30), rng.randint(1, 30)
+        if rng.random() < 0.3:
+            a0, d0 = rng.uniform(0, 360), rng.uniform(-60, 60)
+            ra1, dec1 = cluster(nr, n1, a0, d0, 2.0)
+            ra2, dec2 = cluster(nr, n2, (a0 + 180.0) % 360.0, -d0, 2.0)
+        else:
+            ra1, dec1 = sphere_scatter(nr, n1)
+            ra2, dec2 = sphere_scatter(nr, n2)
+        for _ in range(rng.randint(0, 4)):
+            j = rng.randrange(n1)
+            t = rng.choice([0.0, 10.0 ** -rng.randint(1, 8), rng.uniform(0, 5)])
+            a, d = R.destination(ra1[j], dec1[j], rng.uniform(0, 360), 180.0 - t)
+            if abs(d) < DECLIM:
+                ra2.append(a)
+                dec2.append(d)
+        cs = None if rng.random() < 0.6 else m * rng.choice([1.01, 1.5, 4.0])
+        return {'m': m, 'cs': cs, 'k': self._pick_k(rng, n1, len(ra2)), 'ra1': ra1, 'dec1': dec1, 'ra2': ra2, 'dec2': dec2,
+                'cs_floor': 1.0}
 
     def gen_dense(self, rng, nr, i):
         """a crowded field: n2 = 2**k, 2**k +- 1 (k = 8..17) list-2 points within a fraction of a degree and an explicit
@@ -860,6 +974,13 @@ class C04(Check):
             out.count('equal_dec_list1_cases')
         if n2 >= 2 and np.all(ra2 == ra2[0]):
             out.count('equal_ra_list2_cases')
+        if case.get('kind') == 'lattice' and case.get('cls') == 'gridlines':
+            out.count('lattice_beyond_cases')
+        if case.get('cls') == 'wide_lengths':
+            out.count('wide_length_cases')
+            if m >= 180.0:
+                out.count('wide_length_ge_180_cases')
+            out.count('near_antipodal_pairs', int((Sf > 179.0).sum()))
         if not dense:
             out.count('boundary_ra_points', int(np.isin(ra1, BOUNDARY_RA).sum() + np.isin(ra2, BOUNDARY_RA).sum()))
         nonpair_near = int((~maybe & (Sf < 2.0 * m)).sum())
@@ -969,7 +1090,7 @@ class C04(Check):
         # distances
         if got:
             ref = Sf[I, J]
-            tol = np.maximum(R.PREC[prec][0] * ref, R.PREC[prec][1])
+            tol = R.tolerance(ref, prec)
             bad = np.nonzero(~(np.abs(d - ref) <= tol))[0]
             out.expect(bad.size == 0, 'distance', '%s: %d reported distance(s) differ from the true separation' % (tag, bad.size),
                        first={'pair': describe(*got[int(bad[0])]), 'reported': float(d[bad[0]])} if bad.size else None)
@@ -1011,8 +1132,17 @@ class C04(Check):
             off = c.raOffset
             home1 = [c.get(float(np.fmod(a + off, 360.0)), float(dd)) for a, dd in zip(ra1, dec1)]
             home2 = []
+            decb = set(float(v) for v in c.decBounds)
+            outer = (float(c.decBounds[0]), float(c.decBounds[-1]))
+            rab = [set(float(v) for v in b) for b in c.raBounds]
             for a, dd in zip(ra2, dec2):
                 x = float(np.fmod(a + off, 360.0))
+                if float(dd) in decb:
+                    out.count('gridline_points_exactly_on_dec_bounds')
+                    if float(dd) in outer and abs(dd) < 90.0:
+                        out.count('gridline_points_on_outer_dec_bounds')
+                if any(x in b for b in rab):
+                    out.count('gridline_points_on_ra_bounds')
                 try:
                     h = c.get(x, float(dd))
                 except SGE:
